@@ -7,7 +7,7 @@ isomorphism and accepts every renumbering; the balance model answers true exactl
 counts and charge agree; `standardize` is idempotent and permutation-invariant given the stated
 hypotheses on the opaque canonical SMILES.
 
-Correspondence on the working tree (seven streams, regressions first):
+Correspondence on the working tree (eight streams, regressions first):
  1. canonicaliser, back-ends wl and nauty: model `rxn.canon` (fed with the back-end's labelling)
     = implementation's canonical graphs; specification gates on the implementation's output:
     ITS(canon r) isomorphic to ITS(r) (Lean `match.iso`) and `smiles_check(..., "ITS")` true, equal
@@ -30,6 +30,14 @@ Correspondence on the working tree (seven streams, regressions first):
     more keys).  Gates: ITS-equivalent to the query (validator + Lean `match.iso`), same unmapped sides, fixed
     point, answer = a fresh instance's answer.  A failing case is a list of sessions that was re-run in a NEW
     process before it is written (module-level state cannot be reproduced otherwise).
+ 8. validator ENTRY POINTS: check_pair and validate_smiles (list of dicts / DataFrame / default column names; methods RC, ITS
+    and the default; flags not passed and in all four combinations; arguments by keyword / by position; tables of 1-6 rows
+    with repeated records, 1-3 mapper columns in shuffled order) must answer, per (row, column), what smiles_check answers with
+    the same method and flags - over the ground truth and its reactant tautomers when ignore_tautomers=False - and, when
+    ignore_tautomers=True, what Lean `match.iso` decides on the ITS / centre graphs built with the same ignore_aromaticity.
+    Inputs: hand-written re-mappings related by a reactant tautomer shift (amidine N/N, acid O/O), isomeric aromatisations
+    (soft bond changes only), different reactions with isomorphic centres, and corpus reactions with renumberings,
+    centre transpositions, tautomer-shift transpositions and same-centre partner reactions.
 """
 import json
 import logging
@@ -1047,6 +1055,490 @@ def session_streams(ctx, pool):
     return plan
 
 
+# ---------------------------------------------------------------- stream 8: validator entry points
+# The validator has FOUR public entry points: smiles_check, smiles_check_tautomer, check_pair (one record) and
+# validate_smiles (a table: list of dicts or DataFrame, one verdict per row and mapper column).  The last two take
+# check_method, ignore_aromaticity and ignore_tautomers and document their verdict as the verdict of smiles_check
+# (ignore_tautomers=True, the default) / of smiles_check over the ground truth and its reactant tautomers
+# (ignore_tautomers=False) with the SAME method and flags.  Stream 2 ties smiles_check to the Lean isomorphism
+# decision; this stream ties every other entry point to it, for every method the property speaks about (RC, ITS,
+# and the default), the flags not passed / passed in all four combinations, the arguments by keyword / by position
+# (record, column names and method only - the flags always by keyword) / with the default column names / as a
+# DataFrame, tables of 1-6 rows and 1-3 mapper columns in shuffled order with repeated rows, n_jobs=1.
+# Specification side, per (row, column, method, flags), independent of the table and of the calls made before:
+#   ignore_tautomers=True : Lean `match.iso` on the ITS / centre graphs built with the same ignore_aromaticity
+#                           (= smiles_check with the same flags, which is gated against Lean here too);
+#   ignore_tautomers=False: any(smiles_check(mapped, t, method, ignore_aromaticity)) over t in the ground truth and
+#                           its reactant tautomers (synkit.Chem.utils.enumerate_tautomers = RDKit's enumerator) - that
+#                           is what the parameter documents; only for ground truths with <= TAUT_CAP tautomers (cost).
+# Discriminating inputs (the flags / the method only matter there): re-mappings whose swapped atoms are related by a
+# reactant tautomer shift (amidine N/N, acid O/O, isothiourea N/N: rejected without tautomers, accepted with), pairs of
+# isomeric aromatisations that differ in soft (aromatic <-> localised) bond changes only (RC verdict depends on
+# ignore_aromaticity), and pairs of different reactions with isomorphic centres (RC accepts, ITS rejects).
+# All implementation calls of a table are made in one process in a shuffled order (a verdict must not depend on the
+# calls made before); tables are evaluated in child processes, up to 12 at a time (pure data in, pure data out).
+DEFAULT_GT, DEFAULT_COLS = "ground_truth", ["rxn_mapper", "graphormer", "local_mapper"]
+FLAGSETS = [None, [False, True], [True, True], [False, False], [True, False]]  # [ignore_aromaticity, ignore_tautomers]
+METHODS = ("RC", "ITS")
+TAUT_CAP = 8
+ENTRY_VIOLATION_CAP = 3
+ENTRY_HAND = [
+    {"name": "benzamidine_bromochloroethane", "swap": [8, 9],
+     "truth": "[cH:1]1[cH:2][cH:3][cH:4][cH:5][c:6]1[C:7](=[NH:8])[NH2:9].[Br:10][CH2:11][CH2:12][Cl:13]>>"
+              "[cH:1]1[cH:2][cH:3][cH:4][cH:5][c:6]1[C:7]1=[N:8][CH2:11][CH2:12][NH:9]1.[BrH:10].[ClH:13]"},
+    {"name": "formamidine_bromopropanoyl_chloride", "swap": [2, 3],
+     "truth": "[CH:1](=[NH:2])[NH2:3].[Br:4][CH2:5][CH2:6][C:7](=[O:8])[Cl:9]>>"
+              "[CH:1]1=[N:2][CH2:5][CH2:6][C:7](=[O:8])[NH:3]1.[BrH:4].[ClH:9]"},
+    {"name": "acetamidine_bromochloropropane_shifted_numbers", "swap": [13, 4],
+     "truth": "[CH3:11][C:2](=[NH:13])[NH2:4].[Br:5][CH2:6][CH2:17][CH2:8][Cl:9]>>"
+              "[CH3:11][C:2]1=[N:13][CH2:6][CH2:17][CH2:8][NH:4]1.[BrH:5].[ClH:9]"},
+    {"name": "isothiourea_acyl_chloride", "swap": [4, 5],
+     "truth": "[CH3:1][S:2][C:3](=[NH:4])[NH2:5].[Cl:6][C:7](=[O:8])[CH2:9][CH2:10][Br:11]>>"
+              "[CH3:1][S:2][C:3]1=[N:4][C:7](=[O:8])[CH2:9][CH2:10][NH:5]1.[ClH:6].[BrH:11]"},
+    {"name": "fischer_esterification", "swap": [3, 4],
+     "truth": "[CH3:1][C:2](=[O:3])[OH:4].[CH3:5][OH:6]>>[CH3:1][C:2](=[O:3])[O:6][CH3:5].[OH2:4]"},
+    {"name": "acid_O_alkylation", "swap": [3, 4],
+     "truth": "[CH3:1][C:2](=[O:3])[OH:4].[CH3:5][Br:6]>>[CH3:1][C:2](=[O:3])[O:4][CH3:5].[BrH:6]"},
+    {"name": "benzoic_acid_chloride_formation", "swap": [8, 9],
+     "truth": "[cH:1]1[cH:2][cH:3][cH:4][cH:5][c:6]1[C:7](=[O:8])[OH:9].[Cl:10][S:11](=[O:12])[Cl:13]>>"
+              "[cH:1]1[cH:2][cH:3][cH:4][cH:5][c:6]1[C:7](=[O:8])[Cl:10].[OH:9][S:11](=[O:12])[Cl:13]"},
+    {"name": "methylimidazole_N_methylation", "swap": [4, 6],
+     "truth": "[CH3:1][c:2]1[cH:3][nH:4][cH:5][n:6]1.[CH3:7][I:8]>>[CH3:1][c:2]1[cH:3][n:4]([CH3:7])[cH:5][n:6]1.[IH:8]"},
+    {"name": "phosphonate_O_alkylation", "swap": [3, 4],
+     "truth": "[CH3:1][P:2](=[O:3])([OH:4])[O:5][CH3:6].[CH3:7][Br:8]>>[CH3:1][P:2](=[O:3])([O:4][CH3:7])[O:5][CH3:6].[BrH:8]"},
+    # soft bond changes only: 5-bromocyclohexa-1,3-diene / 3-bromocyclohexa-1,4-diene -> benzene + HBr
+    {"name": "aromatisation_isomers",
+     "truth": "[Br:7][CH:1]1[CH2:2][CH:3]=[CH:4][CH:5]=[CH:6]1>>[cH:1]1[cH:2][cH:3][cH:4][cH:5][cH:6]1.[BrH:7]",
+     "other": "[Br:7][CH:1]1[CH:2]=[CH:3][CH2:4][CH:5]=[CH:6]1>>[cH:1]1[cH:2][cH:3][cH:4][cH:5][cH:6]1.[BrH:7]"},
+    {"name": "aromatisation_isomers_pyridine",
+     "truth": "[Cl:7][CH:1]1[CH2:2][CH:3]=[N:4][CH:5]=[CH:6]1>>[cH:1]1[cH:2][cH:3][n:4][cH:5][cH:6]1.[ClH:7]",
+     "other": "[Cl:7][CH:1]1[CH:2]=[CH:3][NH:4][CH:5]=[CH:6]1>>[cH:1]1[cH:2][cH:3][n:4][cH:5][cH:6]1.[ClH:7]"},
+    # different reactions, isomorphic centres
+    {"name": "ester_hydrolysis_methyl_vs_ethyl",
+     "truth": "[CH3:1][C:2](=[O:3])[O:4][CH3:5].[OH2:6]>>[CH3:1][C:2](=[O:3])[OH:6].[CH3:5][OH:4]",
+     "other": "[CH3:1][CH2:7][C:2](=[O:3])[O:4][CH3:5].[OH2:6]>>[CH3:1][CH2:7][C:2](=[O:3])[OH:6].[CH3:5][OH:4]"},
+    {"name": "diphosphate_hydrolysis_oxygens_exchanged",
+     "truth": "[OH2:1].[CH3:2][O:3][P:4](=[O:5])([O-:6])[O:7][P:8](=[O:9])([O-:10])[O-:11]>>"
+              "[CH3:2][O:3][P:4](=[O:5])([O-:6])[O-:7].[O:9]=[P:8]([O-:1])([O-:10])[OH:11]",
+     "other": "[OH2:1].[CH3:2][O:3][P:4](=[O:5])([O-:6])[O:7][P:8](=[O:9])([O-:10])[O-:11]>>"
+              "[CH3:2][O:3][P:4](=[O:5])([O-:6])[O-:1].[O:9]=[P:8]([O-:7])([O-:10])[OH:11]"},
+]
+
+
+def its_rc_flag(rs, ia):
+    from synkit.Graph.ITS.its_construction import ITSConstruction
+    from synkit.Graph.ITS.its_decompose import get_rc
+
+    gh = parse_rxn(rs)
+    if gh is None:
+        return None
+    its = ITSConstruction().ITSGraph(gh[0], gh[1], ignore_aromaticity=ia)
+    return its, get_rc(its)
+
+
+def transpose_reactant(rs, a, b):
+    p, r = transpose_product(">>".join(reversed(rs.split(">>"))), a, b).split(">>")
+    return r + ">>" + p
+
+
+def shift_pairs(G, H):
+    """Two hetero atoms of one element that share a neighbour and differ in their hydrogen count (X(H)-C=X and the
+    like: what a 1,3 tautomer shift of the reactants exchanges), both present among the products."""
+    out = []
+    het = [n for n, d in G.nodes(data=True) if d.get("element") in ("N", "O", "S") and n in H]
+    for i, a in enumerate(het):
+        for b in het[i + 1:]:
+            if (G.nodes[a]["element"] == G.nodes[b]["element"] and G.nodes[a].get("hcount") != G.nodes[b].get("hcount")
+                    and set(G[a]) & set(G[b])):
+                out.append((a, b))
+    return out
+
+
+def rc_signature(rc):
+    import networkx as nx
+
+    g = nx.Graph()
+    for n, d in rc.nodes(data=True):
+        g.add_node(n, l=repr(d.get("typesGH")))
+    for u, v, d in rc.edges(data=True):
+        g.add_edge(u, v, l=repr(d.get("order")))
+    return (g.number_of_nodes(), nx.weisfeiler_lehman_graph_hash(g, node_attr="l", edge_attr="l"))
+
+
+def _verdict(v):
+    return v if v is None or isinstance(v, bool) else bool(v)
+
+
+def entry_eval(batch):
+    """Every implementation call of one table, in the recorded order.  Pure data in, pure data out; no random choice.
+    A call is [kind, method or None (not passed), [ignore_aromaticity, ignore_tautomers] or None (not passed), style];
+    its answer is a rows x columns matrix of verdicts ("SKIP": ground truth with too many tautomers) or "EXC:..."."""
+    from synkit.Chem.Reaction.aam_validator import AAMValidator as V
+    from synkit.Chem.utils import enumerate_tautomers
+
+    rows, gt, cols = batch["rows"], batch["gt"], batch["cols"]
+    tauts = []
+    for r in rows:
+        try:
+            t = enumerate_tautomers(r[gt])
+        except Exception:  # noqa: BLE001
+            t = None
+        tauts.append(list(t) if t is not None and len(t) <= TAUT_CAP + 1 else None)
+    light = [i for i, t in enumerate(tauts) if t is not None]
+    answers = []
+    for kind, m, fl, style in batch["calls"]:
+        ia, it = fl if fl is not None else (False, True)
+        idx = list(range(len(rows))) if it else light
+        mat = [["SKIP"] * len(cols) for _ in rows]
+        kw = {} if fl is None else {"ignore_aromaticity": fl[0], "ignore_tautomers": fl[1]}
+        try:
+            if kind == "ref":
+                for i in idx:
+                    for j, c in enumerate(cols):
+                        if it:
+                            mat[i][j] = _verdict(V.smiles_check(rows[i][c], rows[i][gt], m, ia))
+                        else:
+                            mat[i][j] = any(V.smiles_check(rows[i][c], t, m, ia) for t in tauts[i])
+            elif kind == "pair":
+                for i in idx:
+                    for j, c in enumerate(cols):
+                        rec = dict(rows[i])
+                        if style == "pos":
+                            v = V.check_pair(rec, c, gt, **kw) if m is None else V.check_pair(rec, c, gt, m, **kw)
+                        else:
+                            if m is not None:
+                                kw["check_method"] = m
+                            v = V.check_pair(mapping=rec, mapped_col=c, ground_truth_col=gt, **kw)
+                        mat[i][j] = _verdict(v)
+            elif kind == "validate" and idx:
+                data = [dict(rows[i]) for i in idx]
+                if style == "frame":
+                    import pandas as pd
+
+                    data = pd.DataFrame(data)
+                if style == "pos":
+                    res = V.validate_smiles(data, gt, list(cols), **kw) if m is None else \
+                        V.validate_smiles(data, gt, list(cols), m, **kw)
+                else:
+                    if m is not None:
+                        kw["check_method"] = m
+                    if style == "defaults":
+                        res = V.validate_smiles(data, n_jobs=1, **kw)
+                    else:
+                        res = V.validate_smiles(data, ground_truth_col=gt, mapped_cols=list(cols), n_jobs=1, **kw)
+                if [e.get("mapper") for e in res] != list(cols) or any(len(e.get("results", ())) != len(idx) for e in res):
+                    mat = "EXC:structure: one entry per mapper column in the given order with one verdict per row expected, got " \
+                          + repr([(e.get("mapper"), len(e.get("results", ()))) for e in res])[:200]
+                else:
+                    for j in range(len(cols)):
+                        for k, i in enumerate(idx):
+                            mat[i][j] = _verdict(res[j]["results"][k])
+        except Exception as e:  # noqa: BLE001
+            mat = "EXC:" + type(e).__name__ + ":" + str(e)[:160]
+        answers.append(mat)
+    return {"calls": answers, "light": light}
+
+
+def _entry_sub_main():
+    """Child process of `entry_eval_many`: stdin = JSON list of tables, stdout = JSON list of their answers."""
+    import sys
+
+    _quiet()
+    print(json.dumps([entry_eval(b) for b in json.loads(sys.stdin.read())]))
+
+
+def entry_eval_many(batches, workers=12):
+    """-> a function that returns the list of answers; the tables are evaluated in `workers` child processes started now
+    (a chunk whose child fails is evaluated in this process)."""
+    import subprocess
+    import sys
+    from concurrent.futures import ThreadPoolExecutor
+
+    import os
+
+    n = max(1, min(workers, len(batches), os.cpu_count() or 1))
+    # longest table first onto the least loaded child (cost ~ pairs x length of the reaction)
+    cost = [len(b["rows"]) * len(b["cols"]) * (200 + max(len(r[b["gt"]]) for r in b["rows"])) for b in batches]
+    chunks, load = [[] for _ in range(n)], [0] * n
+    for i in sorted(range(len(batches)), key=lambda i: (-cost[i], i)):
+        k = load.index(min(load))
+        chunks[k].append(i)
+        load[k] += cost[i]
+
+    def one(ix):
+        try:
+            p = subprocess.run([sys.executable, "-c", "from harness.props import c09; c09._entry_sub_main()"], cwd=str(ROOT),
+                               input=json.dumps([batches[i] for i in ix]), capture_output=True, text=True, timeout=3000)
+            out = json.loads(p.stdout.strip().splitlines()[-1])
+            assert len(out) == len(ix)
+            return out
+        except Exception:  # noqa: BLE001
+            return None
+
+    ex = ThreadPoolExecutor(n)
+    futs = [ex.submit(one, ix) for ix in chunks]
+
+    def collect():
+        res = [None] * len(batches)
+        for ix, f in zip(chunks, futs):
+            out = f.result()
+            if out is None:
+                out = [entry_eval(batches[i]) for i in ix]
+            for i, o in zip(ix, out):
+                res[i] = o
+        ex.shutdown()
+        return res
+
+    return collect
+
+
+def entry_calls(rnd, default_names):
+    """The call matrix of one table in a shuffled order (rnd None: every style, fixed order - used by replays)."""
+    vstyles = ["kw", "pos", "frame"] + (["defaults", "defaults"] if default_names else [])
+    calls = [["ref", m, [ia, it], ""] for m in METHODS for ia in (False, True) for it in (True, False)]
+    for m in (None,) + METHODS:
+        for fl in (FLAGSETS if m is not None else [None]):
+            for st in ([rnd.choice(vstyles)] if rnd is not None else sorted(set(vstyles))):
+                calls.append(["validate", m, fl, st])
+    for m in (None,) + METHODS:
+        for fl in (FLAGSETS if m is not None else [None]):
+            for st in ([rnd.choice(["kw", "pos"])] if rnd is not None else ["kw", "pos"]):
+                calls.append(["pair", m, fl, st])
+    if rnd is not None:
+        rnd.shuffle(calls)
+    return calls
+
+
+def entry_lean(batch):
+    """Lean requests of one table: match.iso of the ITS / centre graphs of (mapped, ground truth), built with both values of
+    ignore_aromaticity.  -> (requests, slots (i, j, method, ia) -> request index or None (unparseable: must be rejected),
+    centre sizes of the ground truths)."""
+    rows, gt, cols = batch["rows"], batch["gt"], batch["cols"]
+    reqs, slot, centre = [], {}, []
+    for i, r in enumerate(rows):
+        tr = {ia: its_rc_flag(r[gt], ia) for ia in (False, True)}
+        centre.append(tr[False][1].number_of_nodes() if tr[False] is not None else 0)
+        for j, c in enumerate(cols):
+            for ia in (False, True):
+                mp = its_rc_flag(r[c], ia) if tr[ia] is not None else None
+                for k, m in enumerate(("ITS", "RC")):
+                    if mp is None:
+                        slot[(i, j, m, ia)] = None
+                    else:
+                        slot[(i, j, m, ia)] = len(reqs)
+                        reqs.append(iso_req(mp[k], tr[ia][k]))
+    return reqs, slot, centre
+
+
+def entry_case(ctx, src, batch, answer=None, confirm=True, pre=None):
+    """One table: implementation answers (given, or computed here), one batch of Lean decisions, then the gates."""
+    rows, gt, cols, calls = batch["rows"], batch["gt"], batch["cols"], batch["calls"]
+    kinds = batch.get("kinds") or [["replay"] * len(cols) for _ in rows]
+    if answer is None:
+        answer = entry_eval(batch)
+    reqs, slot, centre = pre if pre is not None else entry_lean(batch)
+    replies = yield reqs
+    lean = {k: (False if v is None else bool(replies[v])) for k, v in slot.items()}
+    ref = {(m, fl[0], fl[1]): mat for (kind, m, fl, st), mat in zip(calls, answer["calls"]) if kind == "ref"}
+    ctx.count("entry:tables")
+    ctx.count(f"entry:tables:{len(rows)}_rows")
+    seen_pairs = set()
+    for i in range(len(rows)):
+        for j, c in enumerate(cols):
+            key = (rows[i][gt], rows[i][c])
+            if key in seen_pairs:
+                ctx.count("entry:pairs_repeated_in_table")
+                continue
+            seen_pairs.add(key)
+            ctx.count("entry:pairs")
+            ctx.count("entry:pairs:" + kinds[i][j])
+            if i in answer["light"]:
+                ctx.count("entry:pairs_with_tautomer_flags")
+            if any(lean[(i, j, "RC", ia)] != lean[(i, j, "ITS", ia)] for ia in (False, True)):
+                ctx.count("entry:pairs_discriminating:method")
+            if any(lean[(i, j, m, False)] != lean[(i, j, m, True)] for m in METHODS):
+                ctx.count("entry:pairs_discriminating:ignore_aromaticity")
+            if any(isinstance(ref.get((m, ia, False)), list) and ref[(m, ia, False)][i][j] != "SKIP"
+                   and ref[(m, ia, False)][i][j] != lean[(i, j, m, ia)] for m in METHODS for ia in (False, True)):
+                ctx.count("entry:pairs_discriminating:ignore_tautomers")
+
+    def report(what, call, i, j, detail):
+        # at most ENTRY_VIOLATION_CAP reports per run, each for a different (entry point, flags passed or not, tautomers or not)
+        sig = [call[0], call[2] is None, bool(call[2] is None or call[2][1])]
+        mine = [v["case"] for v in ctx.violations if isinstance(v["case"], dict) and v["case"].get("stream") == "entry"
+                and str(v["case"].get("source", "")).startswith("regress") == src.startswith("regress")]
+        if len(mine) >= ENTRY_VIOLATION_CAP or any(c.get("signature") == sig for c in mine):
+            ctx.count("entry:violations_not_reported_separately")
+            return
+        case = {"stream": "entry", "source": src, "gt": gt, "cols": cols, "rows": rows, "call": call, "calls": calls,
+                "row": i, "column": None if j is None else cols[j], "signature": sig}
+        alone = None
+        if confirm and i is not None and j is not None:
+            # the failing (row, column) alone, same call (after the reference calls): is the table / the history needed?
+            one = {"rows": [{gt: rows[i][gt], cols[j]: rows[i][cols[j]]}], "gt": gt, "cols": [cols[j]],
+                   "calls": [k for k in calls if k[0] == "ref"] + [call]}
+            if call[3] == "defaults":
+                one["rows"][0].update({c: rows[i][c] for c in cols})
+                one["cols"] = list(cols)
+            sub = type(ctx)(ctx.pid, ctx.tier, ctx.seed)
+            sub.driver = ctx.lean()
+            run_batch(sub, [entry_case(sub, src, one, confirm=False)])
+            alone = bool(sub.violations)
+            if alone:
+                case = {"stream": "entry", "source": src, "gt": gt, "cols": one["cols"], "rows": one["rows"], "call": call,
+                        "row": 0, "column": cols[j], "kind": kinds[i][j], "signature": sig}
+        ctx.violation(what, case, {**detail, "reproduced_with_this_pair_alone": alone})
+
+    for (kind, m, fl, st), mat in zip(calls, answer["calls"]):
+        call = [kind, m, fl, st]
+        m_eff = m or "RC"
+        ia, it = fl if fl is not None else (False, True)
+        name = {"ref": "smiles_check" if it else "smiles_check over the reactant tautomers", "pair": "check_pair",
+                "validate": "validate_smiles"}[kind]
+        how = f"{name}[{st or 'direct'}](check_method={m if m is not None else 'not passed'}, " + \
+              ("flags not passed" if fl is None else f"ignore_aromaticity={ia}, ignore_tautomers={it}") + ")"
+        if isinstance(mat, str):
+            ctx.count(f"entry:{kind}:exception")
+            if kind != "ref":
+                ctx.case(["entry", call, rows], nontrivial=False)
+                report(f"validator entry point raises / returns a malformed answer: {how}: {mat[:120]}", call, None, None,
+                       {"answer": mat})
+            continue
+        if kind != "ref":
+            ctx.count(f"entry:{kind}:{st}:calls")
+        expect = ref.get((m_eff, ia, it))
+        for i in range(len(rows)):
+            for j, c in enumerate(cols):
+                got = mat[i][j]
+                if got == "SKIP":
+                    ctx.count(f"entry:{kind}:skipped_many_tautomers")
+                    continue
+                spec = lean[(i, j, m_eff, ia)]
+                detail = {"entry": how, "verdict": got, "ground_truth": rows[i][gt], "mapped": rows[i][c],
+                          "lean_iso_same_method_and_aromaticity_flag": spec, "variant": kinds[i][j]}
+                if kind == "ref":
+                    if it and got != spec:
+                        report("smiles_check verdict differs from the Lean isomorphism decision on the ITS / centre graphs",
+                               call, i, j, detail)
+                    elif not it and spec and not got:
+                        report("the tautomer-tolerant check rejects a mapping that is isomorphic to the ground truth itself",
+                               call, i, j, detail)
+                    continue
+                ctx.count(f"entry:{kind}:{'default' if fl is None else ('plain' if it else 'tautomers')}:"
+                          f"{'accept' if got else 'reject'}")
+                ctx.case(["entry", kind, st, m, fl, rows[i][gt], rows[i][c]], nontrivial=centre[i] >= 2,
+                         sample={"stream": "entry", "entry": how, "ground_truth": rows[i][gt], "mapped": rows[i][c], "verdict": got}
+                         if len(rows[i][gt]) < 120 and kinds[i][j] not in ("renumber", "identity") else None)
+                want = expect[i][j] if isinstance(expect, list) and expect[i][j] != "SKIP" else None
+                detail["smiles_check_same_method_and_flags"] = want
+                if it and got != spec:
+                    report(f"{name} {'accepts a mapping whose' if got else 'rejects a mapping although its'} "
+                           f"{'centre' if m_eff == 'RC' else 'ITS'} graph is {'not ' if got else ''}isomorphic to the ground truth's "
+                           f"(Lean match.iso): {how}", call, i, j, detail)
+                elif not it and spec and got is not True:
+                    report(f"{name} rejects a mapping that is isomorphic to the ground truth (a renumbering): {how}", call, i, j, detail)
+                elif want is not None and got != want:
+                    report(f"{name} differs from smiles_check" + ("" if it else " over the ground truth and its reactant tautomers")
+                           + f" with the same method and flags: {how}", call, i, j, detail)
+
+
+def entry_variants(rnd, rs, G, H, its, rc, partners):
+    """Candidate re-mappings of one ground truth: (kind, mapped reaction)."""
+    centre = sorted(rc.nodes)
+    out = [("renumber", renumber(rs, rnd, canonical=rnd.random() < 0.5))]
+    pairs = [(a, b) for i, a in enumerate(centre) for b in centre[i + 1:]]
+    twins = [(a, b) for a, b in pairs if its.nodes[a].get("typesGH") == its.nodes[b].get("typesGH")]
+    if twins:
+        out.append(("transpose_twins", transpose_product(rs, *rnd.choice(twins))))
+    if pairs:
+        a, b = rnd.choice(pairs)
+        out.append(("transpose_centre", (transpose_product if rnd.random() < 0.5 else transpose_reactant)(rs, a, b)))
+    sp = shift_pairs(G, H)
+    if sp:
+        a, b = rnd.choice(sp)
+        v = (transpose_product if rnd.random() < 0.5 else transpose_reactant)(rs, a, b)
+        out.append(("transpose_tautomer_shift", v if rnd.random() < 0.5 else renumber(v, rnd)))
+    pm = sorted(H.nodes)
+    a = rnd.choice(pm)
+    same = [x for x in pm if x != a and H.nodes[x].get("element") == H.nodes[a].get("element")]
+    if same:
+        out.append(("transpose_any", transpose_product(rs, a, rnd.choice(same))))
+    if partners:
+        out.append(("other_reaction_same_centre", rnd.choice(partners)))
+    return [(k, v) for k, v in out if parse_rxn(v) is not None]
+
+
+def entry_tables(ctx, pool, n_corpus):
+    """-> list of (source, table).  Rows: every hand-written ground truth and `n_corpus` corpus reactions, three re-mappings
+    each; tables of 1-5 rows (+ a repeated row with probability 0.25), default or other column names, column order shuffled."""
+    rnd = ctx.rnd
+    rows = []  # (source, truth, [(kind, mapped)] * 3)
+    for h in ENTRY_HAND:
+        t = h["truth"]
+        if "swap" in h:
+            a, b = h["swap"]
+            vs = [("transpose_tautomer_shift", transpose_product(t, a, b)),
+                  ("transpose_tautomer_shift", renumber(transpose_reactant(t, a, b), rnd)),
+                  ("renumber", renumber(t, rnd, canonical=rnd.random() < 0.5))]
+        else:
+            vs = [("other_reaction_same_centre", h["other"]), ("other_reaction_same_centre", renumber(h["other"], rnd)),
+                  ("renumber", renumber(t, rnd))]
+        rows.append(("hand:" + h["name"], t, vs))
+    picked = pool if n_corpus >= len(pool) else rnd.sample(pool, n_corpus)
+    info = {}
+    for s, r in pool:
+        b = its_rc(r)
+        info[r] = (b, rc_signature(b[2]))
+    for s, r in picked:
+        ((G, H), its, rc), sig = info[r]
+        partners = [x for _, x in pool if x != r and info[x][1] == sig and sig[0] >= 2]
+        vs = entry_variants(rnd, r, G, H, its, rc, partners)
+        rnd.shuffle(vs)
+        vs = sorted(vs, key=lambda kv: kv[0] not in ("transpose_tautomer_shift", "other_reaction_same_centre"))[:3]
+        while len(vs) < 3:
+            vs.append(("renumber", renumber(r, rnd)))
+        if rnd.random() < 0.15:
+            vs[rnd.randrange(3)] = ("identity", r)
+        rows.append((s, r, vs))
+    rnd.shuffle(rows)
+    tables = []
+    while rows:
+        k = rnd.choice([1, 2, 3, 3, 4, 5])
+        chunk, rows = rows[:k], rows[k:]
+        default_names = rnd.random() < 0.4
+        gt, names = (DEFAULT_GT, list(DEFAULT_COLS)) if default_names else \
+            (rnd.choice(["truth", "reference", "gt"]), rnd.sample(["mapper_a", "mapper_b", "mapper_c", "ours", "baseline"], 3))
+        recs, kinds = [], []
+        for s, t, vs in chunk:
+            vs = list(vs)
+            rnd.shuffle(vs)
+            items = [(gt, t)] + [(n, v) for n, (k_, v) in zip(names, vs)]
+            rnd.shuffle(items)  # key order of the record
+            recs.append(dict(items))
+            kinds.append({n: k_ for n, (k_, v) in zip(names, vs)})
+        if rnd.random() < 0.25:  # the same record twice in one table
+            k = rnd.randrange(len(recs))
+            at = rnd.randrange(len(recs) + 1)
+            recs.insert(at, dict(recs[k]))
+            kinds.insert(at, kinds[k])
+        cols = list(names)
+        if not default_names:
+            rnd.shuffle(cols)
+            cols = cols[:rnd.choice([1, 2, 3, 3])]
+        tables.append(("entry:" + "+".join(s for s, _, _ in chunk)[:120],
+                       {"rows": recs, "gt": gt, "cols": cols, "kinds": [[kd[c] for c in cols] for kd in kinds],
+                        "calls": entry_calls(rnd, default_names)}))
+    return tables
+
+
+def entry_stream(ctx, pool, n_corpus):
+    tables = entry_tables(ctx, pool, n_corpus)
+    collect = entry_eval_many([t for _, t in tables])
+    pre = [entry_lean(t) for _, t in tables]  # the graphs for Lean are built while the children run
+    answers = collect()
+    run_batch(ctx, [entry_case(ctx, src, t, answer=a, pre=p) for (src, t), a, p in zip(tables, answers, pre)])
+
+
 # ---------------------------------------------------------------- driver
 def load_regress():
     d = ROOT / "regress" / "C09"
@@ -1078,6 +1570,15 @@ def run_one(ctx, c, n_variants=3):
         run_batch(ctx, [standardize_case(ctx, c.get("source", "regress"), c["rsmi"], 4, fixed)])
     elif s == "session":
         run_batch(ctx, [session_case(ctx, c.get("kind", "session"), c.get("source", "regress"), c["sessions"], minimise=False)])
+    elif s == "entry":
+        # the recorded call first (when there is one), then the full call matrix in a fixed order, all in this process
+        full = entry_calls(None, c["gt"] == DEFAULT_GT and list(c["cols"]) == DEFAULT_COLS)
+        calls = [k for k in full if k[0] == "ref"] + ([c["call"]] if c.get("call") and c["call"][0] != "ref" else []) \
+            + [k for k in full if k[0] != "ref"]
+        if c.get("calls"):  # the failure needed the whole table and its call history: the recorded calls, in their order
+            calls = [list(k) for k in c["calls"]]
+        run_batch(ctx, [entry_case(ctx, c.get("source", "regress"), {"rows": c["rows"], "gt": c["gt"], "cols": list(c["cols"]),
+                                                                     "calls": calls}, confirm=False)])
 
 
 def n_atoms(rs):
@@ -1093,6 +1594,8 @@ def run(ctx):
         "RDKit: SMILES parsing/printing, canonical SMILES (opaque `canon`; invariance and idempotence are hypotheses of "
         "standardize_idem / standardize_perm), CalcMolFormula (its output is read as element table + charge)",
         "Driver/RxnNorm.lean JSON codec, harness/graphio.py encoder, harness/props/c09.py adapters",
+        "synkit.Chem.utils.enumerate_tautomers (RDKit TautomerEnumerator over the reactant side): the list of tautomers that "
+        "ignore_tautomers=False quantifies over is taken from it",
         "the canonical labelling of the reactant graph is the back-end's output (C08); C09 takes it as a parameter",
     ]
     ctx.assumptions = [
@@ -1107,6 +1610,11 @@ def run(ctx):
         "map numbers that occur on one side only (they relate no atom to another); the unmapped-sides clause covers the rest",
         "non-default options never put 'atom_map' among node_attrs (it is the quantity being canonicalised; with it the wl "
         "back-end is not a fixed point) and use wl_iterations >= 1 (NetworkX rejects 0)",
+        "validator entry points: the flags ignore_aromaticity / ignore_tautomers are always passed by keyword (their position is not "
+        "part of what is gated); ignore_tautomers=True (the default) means the plain check = ITS / centre isomorphism; "
+        "ignore_tautomers=False means: some reactant tautomer of the ground truth (or the ground truth itself) passes the plain "
+        "check - gated only for ground truths with <= 8 tautomers (cost), and always: a mapping isomorphic to the ground truth is "
+        "accepted; accuracy / success_rate figures of validate_smiles are not gated (the property speaks of verdicts)",
     ]
     ctx.gen_rule = (
         "regression inputs first; population = vendored mapped reactions (ecoli 274, USPTO test set 100) plus hand-written small "
@@ -1119,10 +1627,19 @@ def run(ctx):
         "unmapped fragments of a per-session shelf drawn from 28 reagents, with probability 0.4 one fragment twice, 0.3 leaving groups "
         "unmapped, 0.2 query repeated); 24/120 histories of 3 queries with random options (wl_iterations in 1,2,4,5,6; node_attrs "
         "permuted / 1-3 of the 4 keys / + neighbors / none). The exact back-end gets reactions of <=35 atoms and light reagents "
-        "(its cost is exponential in the symmetry of the reactant graph).")
+        "(its cost is exponential in the symmetry of the reactant graph). "
+        "Entry points (stream 8, generated last, implementation calls in child processes): 13 hand-written ground truths (9 with two "
+        "hetero atoms related by a reactant tautomer shift exchanged on the product / reactant side, 2 pairs of isomeric aromatisations, "
+        "2 pairs of reactions with isomorphic centres) + 28/260 corpus reactions of <=26/45 atoms, three re-mappings each (renumbering, "
+        "transposition of two centre atoms / twins / two hetero atoms X(H)-C=X / two product atoms of one element, a corpus reaction "
+        "with the same centre signature, the reaction itself), grouped into tables of 1-5 records (+ one record twice, p=0.25), default "
+        "column names (p=0.4) or others with 1-3 of the columns in shuffled order; per table 8 reference calls, 11 validate_smiles and "
+        "11 check_pair calls (method not passed / RC / ITS x flags not passed / 4 combinations; style kw / positional / DataFrame / "
+        "default columns drawn per call), in a shuffled order.")
     ctx.nontrivial_rule = ("distinct (stream, back-end/method, reaction, variant); canon: >=3 reactant atoms and >=2 bonds; validator: "
                            "centre with >=2 atoms; balance: >=2 atoms on the left; standardize: >=2 fragments; sessions: distinct "
-                           "(options, history up to the step), >=3 reactant atoms mapped on both sides' ITS and >=2 bonds")
+                           "(options, history up to the step), >=3 reactant atoms mapped on both sides' ITS and >=2 bonds; entry points: distinct "
+                           "(entry point, style, method, flags, ground truth, mapped reaction), centre of the ground truth >=2 atoms")
     build_and_audit(ctx, ["SynKitProofs.Props.C09"], "SynKitProofs/Audit/C09.lean", THEOREMS)
 
     for c in load_regress():
@@ -1168,6 +1685,12 @@ def run(ctx):
         run_batch(ctx, [session_case(ctx, kind, f"{kind}:{k}", [{"opts": plan[k][1], "history": plan[k][2]}],
                                      earlier=[{"opts": o, "history": h} for _, o, h in plan[:k]]) for k in idx])
         lap(kind)
+    # entry points of the validator, after everything else (the streams above keep their cases for a given seed); the
+    # implementation calls of this stream are made in child processes
+    epool = [(s, r) for s, r in synthetic + real if n_atoms(r) <= (26 if q else 45)]
+    ctx.count("entry_pool", len(epool))
+    entry_stream(ctx, epool, 28 if q else 260)
+    lap("entry")
     ctx.extra["stream_wall_s"] = walls
 
     known = load_known(ctx.pid)
@@ -1186,6 +1709,10 @@ def run(ctx):
                    "fed back; partially mapped reactions with recurring unmapped reagents; non-default options): every answer "
                    "is ITS-equivalent to its query, has the same unmapped sides, is a fixed point and equals a fresh "
                    "instance's answer", stream_ok("session"))
+    ctx.obligation("validator entry points check_pair / validate_smiles (list of dicts, DataFrame, default column names; methods RC, "
+                   "ITS, default; flags not passed and in all four combinations; by keyword / position): every verdict == "
+                   "smiles_check (over the reactant tautomers when ignore_tautomers=False) with the same method and flags == Lean iso "
+                   "decision on the ITS / centre graphs when ignore_tautomers=True", stream_ok("entry"))
 
 
 def replay(ctx, case):
